@@ -76,6 +76,12 @@ def check_solve(spec, counters, violations, fault_at=None, persistent=False, tig
         cur = S.cont[S.names[i]]
         S.vary[i].limits = np.array([cur + 0.5, cur + 1.5])
     k0, va0, ta0 = row0(S.opt)
+    # iteration 0 was logged at construction (or at the last clear_log) and no knob moved since: it must hold the
+    # knob values found in the container now (independent reading of "where the solve starts")
+    if second is None and [float(v) for v in S.knobs()] != k0 and not tighten:
+        violations.append({"what": "C09 iteration 0 of the log records knobs %s but the container held %s when it was logged" % (k0, S.knobs()),
+                           "spec": spec})
+        return 0
     calls0 = S.calls
     S.fault_at = None if fault_at is None else calls0 + fault_at
     S.persistent = persistent
@@ -123,6 +129,17 @@ def spec_json(spec):
     return spec
 
 
+def guarded(violations, spec, fn, *a, **k):
+    """API calls that are legal on every problem: an unexpected exception is itself a finding."""
+    try:
+        return fn(*a, **k)
+    except Exception as exc:
+        import traceback
+        violations.append({"what": "C09 a legal sequence of optimizer API calls raised %s: %s" % (type(exc).__name__, str(exc)[:200]),
+                           "spec": spec, "args": repr((a[1:], k))[:300], "traceback": traceback.format_exc()[-1500:]})
+        return 0
+
+
 def run_shard(spec_):
     rng = random.Random("C09:%s:%s" % (spec_["seed"], spec_["shard"]))
     optmon.quiet()
@@ -135,20 +152,20 @@ def run_shard(spec_):
         return {"evaluations": 1, "digests": [], "samples": [], "counters": counters, "violations": violations, "known": []}
     for p in range(spec_["problems"]):
         spec = optmon.gen_problem(rng)
-        n = check_solve(spec, counters, violations)
+        n = guarded(violations, spec, check_solve, spec, counters, violations)
         counters["problems"] = counters.get("problems", 0) + 1
         if n >= 2:
             digests.add(digest(spec))
         for k in range(1, min(n, 12) + 1):
             for persistent in (False, True):
-                check_solve(spec, counters, violations, fault_at=k, persistent=persistent)
+                guarded(violations, spec, check_solve, spec, counters, violations, fault_at=k, persistent=persistent)
                 counters["action_faults_injected"] = counters.get("action_faults_injected", 0) + 1
                 digests.add(digest([spec, k, persistent]))
         if rng.random() < 0.3:
-            check_solve(spec, counters, violations, tighten=True)
+            guarded(violations, spec, check_solve, spec, counters, violations, tighten=True)
             counters["limit_violation_runs"] = counters.get("limit_violation_runs", 0) + 1
-        check_solve(spec, counters, violations, clear=False, fault_at=rng.choice([None, 1, 2, 3]))
-        check_solve(spec, counters, violations, second=rng.choice(["zero-tol", "same"]))
+        guarded(violations, spec, check_solve, spec, counters, violations, clear=False, fault_at=rng.choice([None, 1, 2, 3]))
+        guarded(violations, spec, check_solve, spec, counters, violations, second=rng.choice(["zero-tol", "same"]))
         counters["second_solve_runs"] = counters.get("second_solve_runs", 0) + 1
         if len(samples) < 2:
             samples.append({"spec": {k: spec[k] for k in ("kind", "n", "m", "x0", "tars", "limits", "n_steps_max", "broyden")},
